@@ -44,3 +44,7 @@ pub fn push_no_grow<T, A: std::alloc::Allocator>(v: &mut Vec<T, A>, value: T) {
         v.set_len(len + 1);
     }
 }
+
+/// scored_h.rs: patterns of column 0 (id 0 is the empty pattern) and the texts an item can hold
+pub const PATS: [&str; 5] = ["", "a", "ab", "b", "!a"];
+pub const TEXTS: [&str; 6] = ["a", "b", "aa", "ab", "ba", "bb"];
